@@ -1,6 +1,7 @@
 import MesaModel.Proofs.Viz
 import MesaModel.Proofs.VizLayers
 import MesaModel.Proofs.VizAltair
+import MesaModel.Proofs.VizInputs
 /-!
 # C20 — visualisation data shows each agent once, where it is, as portrayed
 
@@ -573,6 +574,85 @@ theorem C20_creator_checks_all_params (sig : List Param) (ps : List (String × P
     creatorCheck sig ps = .ok () ↔ checkModelParams sig (ps.map (·.1)) = .ok () :=
   creatorCheck_ok_iff sig ps
 
+/-! ## ModelCreator: from `model_params` to the parameters the model is (re-)created with -/
+
+/-- The parameter set `ModelCreator` hands on for creating the model (`model_parameters`): every name of
+    `model_params` exactly once — the fixed ones first, then the user-adjustable ones, each part in the order of the
+    dict —, a fixed value as it was given, an input at its `value`.  Nothing is lost in the split and nothing is added. -/
+theorem C20_creator_params_lossless (ps : List (String × ParamVal)) :
+    (initialParams ps).map (·.1) = (splitParams ps).2.map (·.1) ++ (splitParams ps).1.map (·.1) ∧
+    ((initialParams ps).map (·.1)).Perm (ps.map (·.1)) ∧
+    (initialParams ps).Perm (ps.map fun kv => (kv.1, kv.2.initial)) ∧
+    (∀ kv ∈ (splitParams ps).1, isFixed kv.2.toPy = false) ∧ (∀ kv ∈ (splitParams ps).2, isFixed kv.2.toPy = true) := by
+  refine ⟨initialParams_keys ps, ?_, ?_, ?_, ?_⟩
+  · rw [initialParams_keys, ← List.map_append]
+    exact (splitParams_perm ps).map _
+  · rw [initialParams_eq]
+    exact (splitParams_perm ps).map _
+  · intro kv h
+    have := (List.mem_filter.mp h).2
+    simpa using this
+  · intro kv h
+    exact (List.mem_filter.mp h).2
+
+/-- `UserInputs` creates one input per user-adjustable parameter, in the order of the dict, reporting under the
+    parameter's name: for a `Slider` a float or an int slider as the slider says, for an option dict the input its
+    `type` names, labelled with its `label` (the parameter's name if it has none), starting at its `value`; it
+    raises exactly when some option dict names an unsupported type. -/
+theorem C20_user_inputs_one_per_adjustable_param (us : List (String × ParamVal)) :
+    (∀ ws, userInputs us = .ok ws →
+      ws.map (·.name) = us.map (·.1) ∧ us.map (fun kv => widgetOf kv.1 kv.2) = ws.map some) ∧
+    ((∃ t, userInputs us = .error t) ↔ ∃ kv ∈ us, widgetOf kv.1 kv.2 = none) := by
+  refine ⟨userInputs_ok us, ⟨fun ⟨t, h⟩ => userInputs_error us t h, fun ⟨kv, hm, hw⟩ => ?_⟩⟩
+  cases h : userInputs us with
+  | error t => exact ⟨t, rfl⟩
+  | ok ws =>
+    have h2 := (userInputs_ok us ws h).2
+    have : widgetOf kv.1 kv.2 ∈ us.map (fun kv => widgetOf kv.1 kv.2) := List.mem_map.mpr ⟨kv, hm, rfl⟩
+    rw [h2, hw] at this
+    simp at this
+
+/-- `ModelCreator` renders without an error exactly when every input type is supported and the constructor can be
+    called by keyword with the parameter set it hands on (`initialParams`) — the check of the full `model_params`
+    is a check of the call `Model(**model_parameters)` that a reset makes. -/
+theorem C20_creator_accepts_iff_model_can_be_created (sig : List Param) (ps : List (String × ParamVal)) :
+    (∃ r, modelCreator sig ps = .ok r) ↔
+      (∃ ws, userInputs (splitParams ps).1 = .ok ws) ∧ hasVarPositional sig = false ∧
+        bindsByKeyword sig ((initialParams ps).map (·.1)) := by
+  have hkeys : ∀ k, k ∈ (ps.map fun kv => (kv.1, kv.2.toPy)).map (·.1) ↔ k ∈ (initialParams ps).map (·.1) := by
+    intro k
+    rw [((C20_creator_params_lossless ps).2.1).mem_iff, List.map_map]
+    rfl
+  have hcheck : creatorCheck sig (ps.map fun kv => (kv.1, kv.2.toPy)) = .ok () ↔
+      hasVarPositional sig = false ∧ bindsByKeyword sig ((initialParams ps).map (·.1)) := by
+    rw [creatorCheck_ok_iff, checkModelParams_ok_iff]
+    exact and_congr_right fun _ => bindsByKeyword_congr hkeys
+  unfold modelCreator
+  cases hu : userInputs (splitParams ps).1 with
+  | error t => simp
+  | ok ws =>
+    simp only
+    cases hc : creatorCheck sig (ps.map fun kv => (kv.1, kv.2.toPy)) with
+    | error e =>
+      have : ¬(hasVarPositional sig = false ∧ bindsByKeyword sig ((initialParams ps).map (·.1))) := by
+        rw [← hcheck, hc]; simp
+      simp [this]
+    | ok u =>
+      have := hcheck.mp (by rw [hc])
+      simp [this]
+
+/-- A change of an input (`on_change(name, value)` for a name the parameter set has) replaces the value under that
+    name and nothing else: the names — hence whether the constructor can be called with the set — stay the same. -/
+theorem C20_input_change_keeps_the_parameter_set (sig : List Param) (params : List (String × Option Val))
+    (name : String) (value : Val) (h : name ∈ params.map (·.1)) :
+    (onChange params name value).map (·.1) = params.map (·.1) ∧
+    (∀ kv ∈ onChange params name value, kv.1 = name → kv.2 = some value) ∧
+    (∀ kv, kv.1 ≠ name → (kv ∈ onChange params name value ↔ kv ∈ params)) ∧
+    (bindsByKeyword sig ((onChange params name value).map (·.1)) ↔ bindsByKeyword sig (params.map (·.1))) := by
+  have hk := onChange_keys params name value h
+  obtain ⟨h1, h2⟩ := onChange_spec params name value h
+  exact ⟨hk, h1, h2, by rw [hk]⟩
+
 /-! ## non-vacuity -/
 
 /-- a hex grid with three agents, two of them in one cell and sharing one portrayal dict -/
@@ -615,6 +695,20 @@ example : ¬ bindsByKeyword [⟨"self", .posOrKw, false⟩, ⟨"kwargs", .posOrK
   subst e1; subst e2
   have := hr ⟨"kwargs", .posOrKw, false⟩ (by simp) rfl (by simp) (by simp)
   simp at this
+
+-- ModelCreator: a required parameter given as a Slider, an option dict, two fixed values (one of them a dict)
+def exParams : List (String × ParamVal) :=
+  [("n", .slider false "N" "5"), ("fixed", .plain "3"), ("k", .spec "SliderFloat" (some "3") none), ("fd", .plainDict)]
+
+example : modelCreator [⟨"self", .posOrKw, false⟩, ⟨"n", .posOrKw, false⟩, ⟨"k", .posOrKw, true⟩, ⟨"kw", .varKw, false⟩] exParams =
+    .ok ([("fixed", some "3"), ("fd", some "dict"), ("n", some "5"), ("k", some "3")],
+         [⟨.sliderInt, "n", "N", some "5"⟩, ⟨.sliderFloat, "k", "k", some "3"⟩]) := by decide
+
+example : modelCreator [⟨"self", .posOrKw, false⟩, ⟨"n", .posOrKw, false⟩] [("n", .spec "Foo" (some "1") none), ("zz", .plain "1")] =
+    .error (.unsupported "Foo") := by decide
+
+example : onChange (initialParams exParams) "k" "7" = [("fixed", some "3"), ("fd", some "dict"), ("n", some "5"), ("k", some "7")] := by
+  decide
 
 -- Altair: the encoding follows the first agent of `space.agents` (agent 2, cell (0,1)): its dict has a z-order only, so
 -- neither colour nor size is encoded and the marks get the default size 30000 / 2²; the tooltips are its other keys
